@@ -113,7 +113,7 @@ def evaluate(ids, tier, props_override):
                 t0 = time.time()
                 p = subprocess.run([os.path.join(V, "check"), prop, "--tier", tier], env=dict(os.environ, VERIF_REPO=wt), stdout=subprocess.PIPE, stderr=subprocess.STDOUT, text=True)
                 hit = p.returncode == 1 and ("VIOLATION property=%s" % prop) in p.stdout
-                sigs = sorted(set(re.findall(r"^  (\S+): ", p.stdout, re.M)) - {"tally:"})
+                sigs = sorted(set(re.findall(r"^  (\S+): ", p.stdout, re.M)) - {"tally:", "tally"})
                 r = dict(caught=hit, rc=p.returncode, seconds=round(time.time() - t0), signatures=sigs[:4], tier=tier)
                 results.setdefault(sid, {})[prop + "/" + tier] = r
                 print("%-28s %s %-8s %s %ss %s" % (sid, prop, tier, "CAUGHT" if hit else "missed(rc=%d)" % p.returncode, r["seconds"], sigs[:2]))
@@ -130,7 +130,9 @@ def evaluate(ids, tier, props_override):
         meta = json.load(open(mp))
         rs = results.get(sid, {})
         txt = "; ".join("%s %s%s" % (k, "caught" if v["caught"] else "MISSED", (" (" + ", ".join(v["signatures"][:2]) + ")") if v["caught"] else "") for k, v in sorted(rs.items())) or "not run"
-        lines.append("| %s | %s | %s | %s | %s |" % (sid, meta["property"], meta.get("summary", "").replace("|", "/"), meta.get("needs", "").replace("|", "/"), txt))
+        if meta.get("note"):
+            txt += " - " + meta["note"]
+        lines.append("| %s | %s | %s | %s | %s |" % (sid, meta["property"], meta.get("summary", "").replace("|", "/").replace("\n", " "), meta.get("needs", "").replace("|", "/").replace("\n", " "), txt))
     open(os.path.join(sdir, "RESULTS.md"), "w").write("\n".join(lines) + "\n")
 
 
